@@ -53,6 +53,8 @@ func checkC17(c *Ctx) {
 		c.evalAcceptRule(p, "C17.threshold", sprintf("validateParams(players=%d, threshold=%d) accepted=%v", t.l, t.k, t.ok), vp, map[string]lat{"players": latInt(t.l), "threshold": latInt(t.k)}, nil, t.ok)
 	}
 	c.guard(p, "C17.threshold", "Deal only after parameter validation", p.Func(tr, "", "Deal"), GuardSpec{Assumes: []Assume{calleeAssume(latNonNil, -1, "tss/rsa.validateParams")}})
+	// a share owns its identifier: the dealer may reuse (and change) the scalar it passed in
+	c.fieldStoreRule(p, "C17.distinct", "the share keeps a copy of the identifier it was dealt for", p.Func("secretsharing", "SecretSharing", "ShareWithID"), "ID", `call:invoke \(group\.Scalar\)\.Copy.*`)
 	// Shoup's combination inverts e modulo 4(l!)^2: a key whose public exponent shares a factor with l! deals
 	// shares that can never be combined, so Deal has to refuse it
 	c.guard(p, "C17.threshold", "Deal refuses a public exponent that is not coprime to players!", p.Func(tr, "", "Deal"),
